@@ -40,14 +40,25 @@ Example C01_hostile_tree :
 Proof. vm_compute. reflexivity. Qed.
 
 (* 5. evaluator-wide inertness, on the miniature evaluator of Model/Hole.v (text interpolation, static and
-      bound attributes, v-text, v-if / v-else, v-if comparing with a literal, v-for, nested arbitrarily;
+      bound attributes, v-text, v-show, v-if / v-else-if / v-else chains, v-if comparing with a literal,
+      v-for, components included with static, interpolated and bound props and supplied slot content,
+      slots with fallback - nested arbitrarily, over any table W of component files and any slot closure;
       compared with the engine on concrete data by the "mini" stream): if a template runs to completion
       with opaque HOLES in place of some string values - i.e. no construct inspects their content - then
       with ANY concrete string s in their place it runs to completion too, and the result is the same DOM
       with s filled in verbatim: s contributes characters to the text runs and attribute values that held
-      the hole, and nothing else - no element, no attribute name, no evaluation of what s spells *)
-Theorem C01_hole_parametricity : forall (s : bytes) fuel r t d,
-  cons_e s r = true -> eval fuel r t = Ok d ->
-  exists d', eval fuel (senv s r) t = Ok d' /\ rel s d d'.
-Proof. intros s fuel r t d. exact (eval_hole_param s fuel r t d). Qed.
+      the hole, and nothing else - no element, no attribute name, no evaluation of what s spells, also
+      after s was forwarded as a prop (alone or inside an interpolated string) through any depth of
+      includes or placed in slot content evaluated inside another component *)
+Theorem C01_hole_parametricity : forall (s : bytes) W fuel c r t d,
+  cons_c s c = true -> cons_e s r = true -> eval W fuel c r t = Ok d ->
+  exists d', eval W fuel (sclo s c) (senv s r) t = Ok d' /\ rel s d d'.
+Proof. intros s W fuel c r t d. exact (eval_hole_param s W fuel c r t d). Qed.
 Print Assumptions C01_hole_parametricity.
+(* the premises are met by a run that forwards a hole through a loop, a bound prop, an interpolated prop
+   and slot content; a comparison, or the truthiness of a string assembled around a hole, is reported *)
+Example C01_hole_run_exists : exists d, eval w_demo 7 CNone [(0, VList [VHole true; VStr [x7a]])] t_ok = Ok d.
+Proof. exact inert_case. Qed.
+Example C01_hole_inspection_reported :
+  eval [[TIf 8 [] []]] 5 CNone [(1, VHole true)] (TInclude 0 [PStatic 8 [Lit [x66]; Var 1]] []) = ErrInspect.
+Proof. exact inspected_mixed. Qed.
